@@ -320,6 +320,11 @@ func c09Templates() []c09Tpl {
 		{"printing-capture", `func f() {for true {print("x" * 1000000)}}; x = f(); 1`, "mem", 100, 4000},
 		{"printing-nested", `func g() {for 200 {print("y" * 1000000)}; 1}; func f() {for true {g()}}; f()`, "mem", 100, 4000},
 		{"printing-toplevel", `for true {println("z" * 1000000)}`, "mem", 100, 3000},
+		// small containers that hold themselves several times at every level (tiny in memory, exponential as trees) as
+		// arguments and results of memoizable calls
+		{"shared-argument", `func id(x) {1}; a = [1]; for 45 {a = [a, a, 1]}; id(a); id([a]); id({1: a})`, "", 100, 1000},
+		{"shared-result", `func mk(n) {a = [1]; for n {a = [a, a]}; a}; x = mk(45); y = mk(45); 1`, "", 100, 1000},
+		{"shared-mapresult", `func mk(n) {a = {1: 1}; for n {a = {1: a, 2: a}}; a}; x = mk(45); 1`, "", 100, 1000},
 		// results remembered by the function cache are memory too
 		{"memo-accumulate-4k", `func f(n) {"a" * 4000 + sprintf("%d", n)}; for i = 0:100000000 {f(i)}; 1`, "mem", 100, 20000},
 		{"memo-accumulate-arr", `func f(n) {[n, n + 1, n + 2, n + 3, n + 4, n + 5, n + 6]}; for i = 0:100000000 {f(i)}; 1`, "mem", 100, 20000},
